@@ -210,7 +210,12 @@ def judge(case):
                 interesting = True
             tau = base_tau.tau(n if n is not None else 4.0)
         # tiny contours (below the quantisation) may legitimately collapse; ignore those on both sides
-        tiny = lambda c: (lambda bb: max(bb[2] - bb[0], bb[3] - bb[1]) <= 2 * tau)(bbox([c]))
+        # ... and so may slivers: a contour whose mean width (2 x area / longest extent) is below the quantisation collapses
+        # onto a line when its corners are rounded to the unit grid, however long it is (A45)
+        def tiny(c):
+            bb = bbox([c])
+            ext = max(bb[2] - bb[0], bb[3] - bb[1])
+            return ext <= 2 * tau or 2.0 * abs(area([c])) / ext <= tau
         ui, uj, worst = match_contours(impl_cs, ref_cs, tau)
         ui = [k for k in ui if not tiny(impl_cs[k])]
         uj = [k for k in uj if not tiny(ref_cs[k])]
